@@ -1600,6 +1600,7 @@ fn kernel_line(t: &[&str]) -> String {
         (Some(a), Some(b)) => (a, b),
         _ => return "bad-line".to_string(),
       };
+      let (b1, b2) = (show_lvn_stmts(&heap, &s1), show_lvn_stmts(&heap, &s2));
       let v0 = name(&mut heap, "v00");
       let mut f = Function {
         name: FunctionName { type_name: TypeNameId::EMPTY, fn_name: name(&mut heap, "f0") },
@@ -1626,7 +1627,16 @@ fn kernel_line(t: &[&str]) -> String {
         .collect();
       hoisted.sort();
       hoisted.dedup();
-      format!("hoisted {}", if hoisted.is_empty() { "-".to_string() } else { hoisted.join(",") })
+      // the model (`cse_preserves`) assumes the if/else itself is left as it was and is the last statement
+      let unchanged = match f.body.last() {
+        Some(Statement::IfElse { s1, s2, .. }) => show_lvn_stmts(&heap, s1) == b1 && show_lvn_stmts(&heap, s2) == b2,
+        _ => false,
+      };
+      format!(
+        "hoisted {} branches={}",
+        if hoisted.is_empty() { "-".to_string() } else { hoisted.join(",") },
+        if unchanged { "same" } else { "changed" }
+      )
     }
     "ivuse" if t.len() == 3 => {
       // IV-elimination candidate whose only other mention of the counter `i` is at POS inside a nested loop
@@ -1755,6 +1765,29 @@ fn kernel_line(t: &[&str]) -> String {
         Err(_) => return "panic".to_string(),
       };
       if after[0].body.iter().any(|s| s.as_while().is_some()) { "kept".to_string() } else { "fired".to_string() }
+    }
+    "dcel" if t.len() >= 2 => {
+      // `dcel RET <block>`: real dead_code_elimination on a block with SingleIf / IfElse
+      let mut heap = Heap::new();
+      let body = match straight_line(&mut heap, &t[2..]) {
+        Some(b) => b,
+        None => return "bad-line".to_string(),
+      };
+      let ret = match expr_of(&mut heap, t[1]) {
+        Some(r) => r,
+        None => return "bad-line".to_string(),
+      };
+      let mut f = Function {
+        name: FunctionName { type_name: TypeNameId::EMPTY, fn_name: name(&mut heap, "f0") },
+        parameters: vec![name(&mut heap, "v00"), name(&mut heap, "v01")],
+        type_: Type::new_fn_unwrapped(vec![INT_32_TYPE; 2], INT_32_TYPE),
+        body,
+        return_value: ret,
+      };
+      let counter = heap.create_temp_counter();
+      verif_hooks::run_pass("dce", &mut f, &counter, &config(31));
+      let s = show_lvn_stmts(&heap, &f.body);
+      if s.is_empty() { "-".to_string() } else { s }
     }
     "dceuse" if t.len() >= 2 => {
       let mut heap = Heap::new();
